@@ -16,7 +16,7 @@ class BatchCapture:
     """Wraps nn_state.compute_batch_gradients and nn_state.rbm_am.gibbs_steps on
     the *instance* (the class and every other instance stay untouched)."""
 
-    def __init__(self, run, state, before_batch=None, after_batch=None):
+    def __init__(self, run, state, before_batch=None, after_batch=None, call_through=True):
         self.run = run
         self.state = state
         self.records = []
@@ -25,6 +25,7 @@ class BatchCapture:
         self.after_batch = after_batch
         self.stray_gibbs = 0
         self._installed = False
+        self.call_through = call_through  # False: only the batching is observed, no gradient is computed
 
     def install(self):
         state = self.state
@@ -50,7 +51,10 @@ class BatchCapture:
             if cap.before_batch is not None:
                 cap.before_batch(rec, samples_batch, neg_batch, bases)
             try:
-                out = orig_cbg(k, samples_batch, neg_batch, *args, **kwargs)
+                if cap.call_through:
+                    out = orig_cbg(k, samples_batch, neg_batch, *args, **kwargs)
+                else:
+                    out = [torch.zeros(getattr(state, net).num_pars, dtype=torch.double) for net in state.networks]
             finally:
                 cap.current = None
             rec["returned"] = [(_np(g) if isinstance(g, torch.Tensor) else g) for g in out]
